@@ -115,6 +115,7 @@ def model_only(sh, rng, n):
                 c.inline_refs.append(am.InlineRef(rng.choice(['>', '<', '-']), t_i, t.columns[0].name))
                 t.columns.append(c)
         db = apibuild.build(doc)
+        twin = apibuild.build(doc)              # built identically, NOT rendered before the edits below
         names = [qn(t) for t in doc.tables]
         try:
             first = table_order(db)
@@ -135,13 +136,16 @@ def model_only(sh, rng, n):
         inl = [r for r in db.refs if r.inline]
         rng.shuffle(inl)
         want_inline = {}
+        pos = {id(r): k_ for k_, r in enumerate(db.refs)}
         for r in inl[:rng.randint(1, 3)]:
             r.inline = False
+            twin.refs[pos[id(r)]].inline = False
             flips += 1
         if rng.random() < 0.5:          # half of the time ONLY inline-ness changes (references still compare equal)
             for r in db.refs:
                 if rng.random() < 0.3 and r.type in ('>', '<'):
                     r.type = '<' if r.type == '>' else '>'
+                    twin.refs[pos[id(r)]].type = r.type
                     flips += 1
         try:
             after = table_order(db)
@@ -152,6 +156,11 @@ def model_only(sh, rng, n):
             table_order(apibuild.build(decoy))
             fresh = table_order(clone(db))
             table_order(apibuild.build(decoy))
+            twin_order = table_order(twin)
+            if twin_order != after:
+                sh.violation('det', 'model-only:order-depends-on-whether-the-database-was-rendered-before-the-edit',
+                             f'rendered, edited, rendered: {after}; identically built and edited, rendered once: {twin_order}',
+                             {'kind': 'modelonly', 'text': surface.render(doc, 0, surface.CANON)}, {'suite': 'modelonly'})
             again = table_order(db)
             if again != after:
                 sh.violation('det', 'model-only:order-changes-when-other-databases-are-rendered-in-between',
